@@ -100,6 +100,29 @@ def _uncontracted(u, spec_text, harness_text):
     return out
 
 
+def _find_definition(sig, tus, u):
+    """The translation unit of /repo/src that defines the function with this demangled signature (searched by name in the
+    source text, then confirmed in the AST); the TU is added to the unit."""
+    from common import SRC
+    name = sig.split("(")[0].replace("libcellml::", "")
+    pat = re.compile(r"\b%s\s*\(" % re.escape(name))
+    for f in sorted(os.listdir(SRC)):
+        if not f.endswith(".cpp") or f in tus:
+            continue
+        try:
+            txt = open(os.path.join(SRC, f), errors="replace").read()
+        except OSError:
+            continue
+        if not pat.search(txt):
+            continue
+        t = cast.load_tu(f)
+        if sig in t.funcs:
+            tus[f] = t
+            u.add_tu(t)
+            return t, t.funcs[sig]
+    return None, None
+
+
 def lower_unit(spec, prop, known_uncontracted=None, known_functions=None):
     """Dump the ASTs, lower the functions, compose <work>/<unit>.c.  Raises Undecided.
     known_uncontracted: the callees that had neither contract nor body on the pinned tree (from the baseline).
@@ -138,8 +161,27 @@ def lower_unit(spec, prop, known_uncontracted=None, known_functions=None):
                         fd, ftu = t.funcs[sig], t
                         break
                 if fd is None or known_functions is None or sig in known_functions:
-                    b.new_unconstrained.append(cn)
-                    log("  [unit %s] new callee %s (an existing function) has no contract: unconstrained" % (spec.name, cn))
+                    # an existing function that the changed code newly calls: verified with its caller when it is a simple accessor
+                    # (found, lowers, no loop, not recursive, at most 8 of them); otherwise unconstrained
+                    ok = False
+                    if len(b.auto_lowered) < 8 and sig:
+                        try:
+                            if fd is None:
+                                ftu, fd = _find_definition(sig, tus, u)
+                            if fd is not None:
+                                lo = u.lower_function(ftu, fd)
+                                if lo.loops == 0 and lo.name not in lo.calls and (lo.name + "__rec") not in lo.calls:
+                                    ok = True
+                                else:
+                                    del u.funcs[lo.name]
+                        except Undecided:
+                            ok = False
+                    if ok:
+                        b.auto_lowered.append(cn)
+                        log("  [unit %s] new callee %s (an existing accessor) has no contract: lowered too" % (spec.name, cn))
+                    else:
+                        b.new_unconstrained.append(cn)
+                        log("  [unit %s] new callee %s (an existing function) has no contract: unconstrained" % (spec.name, cn))
                     continue
                 u.lower_function(ftu, fd)
                 b.auto_lowered.append(cn)
@@ -147,7 +189,7 @@ def lower_unit(spec, prop, known_uncontracted=None, known_functions=None):
     b.uncontracted = _uncontracted(u, spec_text, harness_text)
     b.lowered = u
     text = u.emit()
-    macros = sorted(set(re.findall(r"\b__(?:FC|LC)_[A-Za-z0-9_]+", text)))
+    macros = sorted(set(re.findall(r"\b__(?:FC|LC|RC)_[A-Za-z0-9_]+", text)))
     parts = ['#include "%s"' % os.path.join(VERIF, "models", "base.h")]
     for m in spec.models:
         parts.append('#include "%s"' % os.path.join(VERIF, "models", m))
@@ -161,6 +203,15 @@ def lower_unit(spec, prop, known_uncontracted=None, known_functions=None):
     for m in macros:
         parts.append("#ifndef %s\n#define %s\n#endif" % (m, m))
     parts.append(text)
+    # call-by-parameter-name wrappers: a harness fills the parameters it knows (struct ARGS_<fn> a; a.<param> = ...) and leaves any
+    # parameter a change may add unconstrained, so the harness survives a changed signature
+    for cn, lo in sorted(u.funcs.items()):
+        ps = getattr(lo, "params", None)
+        if not ps:
+            continue
+        parts.append("struct ARGS_%s { %s };" % (cn, " ".join("%s %s;" % (t, n) for t, n in ps)))
+        parts.append("static inline %s CALLN_%s(struct ARGS_%s a_) { %s%s(%s); }" % (lo.ret, cn, cn, "" if lo.ret == "void" else "return ", cn, ", ".join("a_.%s" % n for _t, n in ps)))
+        parts.append("#define NPARAMS_%s %d" % (cn, len(ps)))
     for cn in b.new_unconstrained:
         # a function the changed code newly calls and the spec knows nothing about: any result, no effect (over-approximation;
         # a failure that depends on it only counts when the native replay reproduces it)
